@@ -117,6 +117,9 @@ theorem execOp_L {s : State} {me : Nat} (op : Op) (rest : List Op) (h : InvL s) 
   | cancel t =>
     simp only [execOp]
     split <;> exact finish_L_neutral _ _ _ _ (cancelR_L t h) rfl
+  | resume t =>
+    simp only [execOp]
+    split <;> exact finish_L_neutral _ _ _ _ ((Woke.resume s t).invL h) rfl
   | exit =>
     simp only [execOp]; exact h
   | throw =>
@@ -131,16 +134,39 @@ theorem execOp_inv {s : State} {me : Nat} (op : Op) (rest : List Op) (h : Inv s)
 theorem die_inv {s : State} {me : Nat} (h : Inv s) (hr : Run s me) : Inv (die s me) :=
   ⟨die_S h.S hr, setR_L _ _ h.L⟩
 
+/-- `Mutex::unlock` never switches out and never fails -/
+theorem unlock_ctl (s : State) (me m : Nat) (rest : List Op) : (execOp s me (.unlock m) rest).2 = .next := by
+  simp only [execOp]
+  split <;> simp [finish]
+
+/-- leaving the `Mutex::Locker` scopes of a RAII script (each destructor is one `unlock`) keeps the invariant -/
+theorem unwindList_inv (me : Nat) (ms : List Nat) {s : State} (h : Inv s) (hr : Run s me) :
+    Inv (unwindList me ms s) ∧ Run (unwindList me ms s) me := by
+  induction ms generalizing s with
+  | nil => exact ⟨h, hr⟩
+  | cons m ms ih =>
+    have key := execOp_inv (me := me) (.unlock m) [] h hr
+    exact ih key.1 (key.2 (by rw [unlock_ctl]; simp))
+
+theorem unwind_inv {s : State} {me : Nat} (h : Inv s) (hr : Run s me) : Inv (unwind s me) ∧ Run (unwind s me) me := by
+  unfold unwind
+  split
+  · exact unwindList_inv me _ h hr
+  · exact ⟨h, hr⟩
+
+theorem fin_inv {s : State} {me : Nat} (h : Inv s) (hr : Run s me) : Inv (fin s me) :=
+  die_inv (unwind_inv h hr).1 (unwind_inv h hr).2
+
 theorem runOps_inv (me : Nat) (ops : List Op) {s : State} (h : Inv s) (hr : Run s me) : Inv (runOps me ops s) := by
   induction ops generalizing s with
-  | nil => exact die_inv h hr
+  | nil => exact fin_inv h hr
   | cons op rest ih =>
     have key := execOp_inv (me := me) op rest h hr
     simp only [runOps]
     split
     · rename_i s1 e; rw [e] at key; exact ih key.1 (key.2 (by simp))
     · rename_i s1 e; rw [e] at key; exact key.1
-    · rename_i s1 e; rw [e] at key; exact die_inv key.1 (key.2 (by simp))
+    · rename_i s1 e; rw [e] at key; exact fin_inv key.1 (key.2 (by simp))
 
 /-- the scheduler marks the routine running -/
 theorem enter_S {s : State} {r : Nat} (h : InvS s) (ha : alive s r = true) (rest : List Nat)
@@ -329,16 +355,28 @@ theorem mainCall_tmp (s : State) (op : Op) : (mainCall s op).tmp = s.tmp := by
   all_goals simp
 
 
+theorem unwindList_tmp (me : Nat) (ms : List Nat) (s : State) : (unwindList me ms s).tmp = s.tmp := by
+  induction ms generalizing s with
+  | nil => rfl
+  | cons m ms ih => simp only [unwindList]; rw [ih, execOp_tmp]
+
+theorem fin_tmp (s : State) (me : Nat) : (fin s me).tmp = s.tmp := by
+  show (unwind s me).tmp = s.tmp
+  unfold unwind
+  split
+  · exact unwindList_tmp _ _ _
+  · rfl
+
 theorem runOps_tmp (me : Nat) (ops : List Op) (s : State) : (runOps me ops s).tmp = s.tmp := by
   induction ops generalizing s with
-  | nil => rfl
+  | nil => exact fin_tmp s me
   | cons op rest ih =>
     have key := execOp_tmp s me op rest
     simp only [runOps]
     split
     · rename_i s1 e; rw [e] at key; rw [ih, key]
     · rename_i s1 e; rw [e] at key; exact key
-    · rename_i s1 e; rw [e] at key; exact key
+    · rename_i s1 e; rw [e] at key; rw [fin_tmp]; exact key
 
 theorem switchTo_tmp (s : State) (r : Nat) : (switchTo s r).tmp = s.tmp := by
   unfold switchTo
@@ -549,6 +587,16 @@ theorem applyMain_inv {s : State} (op : MainOp) (h : Inv s) : Inv (applyMain s o
   cases op with
   | call op => exact ⟨⟨mainCall_S op h.S, mainCall_L op h.L h.S⟩, mainCall_tmp s op⟩
   | define xf ops =>
+    refine ⟨⟨?_, h.L.of_eq rfl rfl rfl rfl⟩, rfl⟩
+    have hS := h.S
+    exact ⟨hS.fixed, hS.chAvail, hS.chReg, hS.mxAvail, hS.mxReg, hS.smAvail, hS.smReg, hS.bcReg, hS.cdReg, hS.joinReg,
+      hS.freedDead, hS.inOpOk, hS.outside, hS.ready⟩
+  | defineR ops =>
+    refine ⟨⟨?_, h.L.of_eq rfl rfl rfl rfl⟩, rfl⟩
+    have hS := h.S
+    exact ⟨hS.fixed, hS.chAvail, hS.chReg, hS.mxAvail, hS.mxReg, hS.smAvail, hS.smReg, hS.bcReg, hS.cdReg, hS.joinReg,
+      hS.freedDead, hS.inOpOk, hS.outside, hS.ready⟩
+  | stack b =>
     refine ⟨⟨?_, h.L.of_eq rfl rfl rfl rfl⟩, rfl⟩
     have hS := h.S
     exact ⟨hS.fixed, hS.chAvail, hS.chReg, hS.mxAvail, hS.mxReg, hS.smAvail, hS.smReg, hS.bcReg, hS.cdReg, hS.joinReg,
